@@ -57,6 +57,8 @@ ASSUMPTIONS = [
 UNITS = ["ill_u", "ill_r", "ill_e", "img", "stripe", "chg", "dc", "imgc"]
 LENGTH = 6.0
 # an irregular grid (readout times that are not multiples of anything convenient); the last point closes the interval
+# offsets which, added to the start time 2.5, give the whole numbers 3 .. 8 (family "G6n": integer-typed readout times)
+HALFINT = [0.5, 1.5, 2.5, 3.5, 4.5, 5.5]
 IRREGULAR = [0.123456789, 1.000000123, 2.718281828, 3.141592653, 4.4444444441, 6.0]
 P = "pyxel.models."
 
@@ -108,6 +110,11 @@ def enumerate_cases(tier, seed):
             geo = [2, 4] if "stripe" in units else [2, 3]
             cases.append({"fam": "G6i", "units": units, "palette": palette, "geo": geo, "start": 0.5, "G": 6,
                           "chunk": [0, 1], "modes": ["nd", "d"], "scales": [1], "grid": "irregular"})
+    # whole-number readout times handed over as Python ints next to a fractional start time (2.5 -> 3, 4, ..., 8)
+    for units in (["ill_u"], ["chg"], ["dc"], ["ill_u", "chg"]):
+        cases.append({"fam": "G6n", "units": units, "palette": "dyadic", "geo": [2, 3], "start": 2.5, "G": 6,
+                      "chunk": [0, 1], "modes": ["nd", "d"], "scales": [1], "grid": "halfint", "length": 5.5,
+                      "int_times": True})
     if thorough:
         nch = 8
         for units in [[u] for u in UNITS] + [list(UNITS)]:
@@ -138,7 +145,7 @@ def expected_size(tier, seed):
         n += 8 * (4 * 2 + 5 * 1)
     else:
         n += 1
-    n += 2 * (len(UNITS) + (1 if thorough else 0)) + 9
+    n += 2 * (len(UNITS) + (1 if thorough else 0)) + 9 + 4
     return n
 
 
@@ -264,25 +271,30 @@ def run_case(case):
 
     tmp = tempfile.mkdtemp(prefix="vp_c17_")
     runs = 0
+    L = float(case.get("length", LENGTH))
+    as_int = bool(case.get("int_times"))       # the readout times are handed over as Python ints (3 instead of 3.0)
     try:
-        end = start + LENGTH
+        end = start + L
         try:
-            ref, _ = run_schedule(units, palette, geo, start, [end], True, tmp, kind=case.get("det", "ccd"))
+            ref, _ = run_schedule(units, palette, geo, start, [int(round(end))] if as_int else [end], True, tmp,
+                                  kind=case.get("det", "ccd"))
             runs += 1
         except Exception as e:  # noqa: BLE001
             bad("raised", f"single-readout exposure times=[{end}] raised {type(e).__name__}: {str(e)[:300]}", mode="single")
             return {"viol": viol, "sig": cfgx.sig(["raised", case]), "nontrivial": False, "n": 1}
         ref = ref[-1]
-        rate = ref / LENGTH
+        rate = ref / L
         nontrivial = bool(np.any(ref != 0)) and bool(np.all(np.isfinite(ref)))
         if not nontrivial:
             raise RuntimeError(f"harness: the reference frame of {units}/{palette}/{geo} is zero or not finite: {ref}")
-        step = LENGTH / G
+        step = L / G
         seen = set()
         for mask, idx in partitions(G, case["chunk"]):
             for scale in case["scales"]:
                 if case.get("grid") == "irregular":
                     times = [start + scale * IRREGULAR[k - 1] for k in idx]
+                elif case.get("grid") == "halfint":
+                    times = [int(round(start + HALFINT[k - 1])) for k in idx]
                 else:
                     times = [start + scale * step * k for k in idx]
                 for mode in case["modes"]:
